@@ -407,6 +407,7 @@ func (e *Engine) runPath(i *interpreter, solver *Solver, prefix []Decision) {
 		}()
 		callSSA(i, nil, token.NoPos, e.Cfg.Entry, nil, nil)
 	}()
+	ps.killThreads()
 	ps.outcome = outcome
 	ex := e.Ex
 	if outcome == "panic" && e.Cfg.PanicIsViolation {
